@@ -1220,6 +1220,8 @@ def crash_key(o, f, sheets):
 
 
 def run_fuzz_case(ctx, i, rng):
+    if i % 40 == 7:
+        return run_text_fuzz_case(ctx, i, rng)
     f = base_form(rng, ctx.tier)
     tags = []
     for _ in range(rng.choice([1, 1, 2, 2, 3, 4, 6])):
@@ -1249,6 +1251,52 @@ def run_fuzz_case(ctx, i, rng):
                  common.witness(f, fmt=fmt, tags=tags, outcome=o.brief()))
     if i % 211 == 0:
         ctx.sample({"fuzz_steps": tags, "container": fmt, "outcome": o.brief(), "form_md": sheets_to_md(sheets)[:1200]})
+
+
+def run_text_fuzz_case(ctx, i, rng):
+    """Container-level fuzz: markdown / CSV text with structural damage (empty sheets, stray pipes, missing header rows, ragged rows)."""
+    f = base_form(rng, ctx.tier)
+    fmt = pick(rng, ["md", "csv"])
+    try:
+        text = render.render(f.to_sheets(), fmt)
+    except Exception:
+        return
+    lines = text.split("\n")
+    tags = []
+    for _ in range(rng.randint(1, 3)):
+        m = rng.randrange(7)
+        k = rng.randrange(len(lines)) if lines else 0
+        if m == 0:
+            lines.insert(k, "| choices |" if fmt == "md" else "choices")
+            tags.append("bare-sheet-name-line")
+        elif m == 1 and lines:
+            del lines[k]
+            tags.append("line-deleted")
+        elif m == 2:
+            lines.insert(k, pick(rng, ["|||||||", "| | | |", "||", "| |", ",,,,", "\"", "| a | b", "a|b|c|d|e|f"]))
+            tags.append("junk-line")
+        elif m == 3 and lines:
+            lines[k] = lines[k][: rng.randrange(len(lines[k]) + 1)]
+            tags.append("line-truncated")
+        elif m == 4 and lines:
+            lines.insert(k, lines[k])
+            tags.append("line-duplicated")
+        elif m == 5:
+            lines = [ln for ln in lines if ln.strip()][: rng.randint(1, 6)]
+            tags.append("head-only")
+        else:
+            lines.insert(0, pick(rng, ["| survey |", "survey", "| settings |", "| |", ""]))
+            tags.append("leading-line")
+    text = "\n".join(lines)
+    o = drive.call_convert(text, **({"file_type": "." + fmt} if rng.random() < 0.6 else {}))
+    cls = "ok" if o.ok else ("pyxform-error" if o.exc_is_pyxform else "internal")
+    ctx.case(sig=repr((fmt, tuple(sorted(set(tags))), cls)))
+    ctx.ctr(f"fuzz_outcome:{cls}")
+    ctx.ctr("fuzz_cases")
+    ctx.ctr("text_fuzz_cases")
+    if cls == "internal":
+        ctx.viol(f"crash:{o.exc_type}@{o.exc_frame}:text-container:{fmt}", f"internal {o.exc_type} escaped convert() on damaged {fmt} text: {o.exc_msg[:200]!r} at {o.exc_frame}; steps {tags}",
+                 {"text": text[:4000], "fmt": fmt, "tags": tags, "klass": "text"})
 
 
 # =============================================================================== plan / shard / replay
@@ -1285,6 +1333,12 @@ def aggregate(agg, plan_, tier, seed):
 
 def replay(w):
     def chk(ctx, wit):
+        if wit.get("klass") == "text":
+            o = drive.call_convert(wit["text"], file_type="." + wit["fmt"])
+            print("  outcome now:", o.brief()[:300])
+            if not o.ok and not o.exc_is_pyxform:
+                ctx.viol(f"crash:{o.exc_type}@{o.exc_frame}", o.brief())
+            return
         f = common.form_from_witness(wit)
         fmt = wit.get("fmt", "dict")
         o = drive.convert_form(f, fmt=fmt if fmt in ("dict", "xlsx", "xls", "md", "csv") else "dict")
